@@ -1158,6 +1158,8 @@ def register_all(M):
     # ---- Iterator adaptors -------------------------------------------------------------------
     def it_of(v):
         v = deref(v)
+        if isinstance(v, Agg) and v.ty == "Range":
+            return SeqIt([usize(i) for i in range(conc(v.fields[0]), conc(v.fields[1]))])
         if not isinstance(v, It):
             raise Unsupported("not an iterator: %r" % (v,))
         return v
@@ -1252,6 +1254,12 @@ def register_all(M):
         raise Unsupported("flatten")
     M.add(r"<std::iter::Peekable<.*>>::peek|Peekable::<.*>::peek", lambda c, m, a: (lambda v: none() if v is None else some(new_ref(v)))(it_of(a[0]).peek(c)))
     M.add(r"Chars::as_str", lambda c, m, a: Str(it_of(a[0]).remaining()))
+
+    def closure_call(c, m, a):
+        args = a[1]
+        args = list(args.fields) if isinstance(args, Agg) and args.ty == "tuple" else ([] if args is UNIT else [args])
+        return c.call_callable(a[0], args)
+    M.add(r"<\{closure@.*\} as Fn(?:Once|Mut)?<.*>>::call(?:_once|_mut)?|<&(?:mut )?\{closure@.*\} as Fn(?:Once|Mut)?<.*>>::call(?:_once|_mut)?", closure_call)
 
     # ---- fmt ---------------------------------------------------------------------------------
     M.add(r"core::fmt::rt::Argument::new_display::<.*>", lambda c, m, a: Agg("FmtArg", "display", [a[0]]))
@@ -1379,27 +1387,25 @@ def register_all(M):
         return UNIT
     M.add(r"<" + MAP + r"<.*> as Extend<.*>>::extend::<.*>", map_extend)
 
-    # ---- Duration (value = Agg("Duration", [u128 nanoseconds])) ---------------------------------
+    # ---- Duration (value = Agg("Duration", [nanoseconds as a mathematical integer])) -----------------
     def dur(n):
-        return Agg("Duration", None, [n if isinstance(n, SInt) else mk_int(n, "u128")])
+        return Agg("Duration", None, [n if isinstance(n, SInt) else mk_int(n, "nat")])
     M.dur = dur
 
-    def widen(v, bits=128):
+    def to_nat(v):
         if v.concrete:
-            return mk_int(v.v, "u128")
-        return mk_int(z3.ZeroExt(bits - INT_BITS[v.ty], v.z()), "u128")
-    M.add(r"Duration::from_secs", lambda c, m, a: dur(mk_int(widen(a[0]).z() * 1000000000, "u128")))
-    M.add(r"Duration::from_millis", lambda c, m, a: dur(mk_int(widen(a[0]).z() * 1000000, "u128")))
-    M.add(r"Duration::is_zero", lambda c, m, a: sbool(char_eq(deref(a[0]).fields[0], mk_int(0, "u128"))))
-    M.add(r"Duration::as_secs", lambda c, m, a: mk_int(z3.Extract(63, 0, z3.UDiv(deref(a[0]).fields[0].z(), z3.BitVecVal(1000000000, 128))), "u64"))
+            return mk_int(v.v, "nat")
+        return mk_int(z3.BV2Int(v.z()), "nat")
+    M.add(r"Duration::from_secs", lambda c, m, a: dur(mk_int(to_nat(a[0]).z() * 1000000000, "nat")))
+    M.add(r"Duration::from_millis", lambda c, m, a: dur(mk_int(to_nat(a[0]).z() * 1000000, "nat")))
+    M.add(r"Duration::is_zero", lambda c, m, a: sbool(char_eq(deref(a[0]).fields[0], mk_int(0, "nat"))))
+    M.add(r"Duration::as_secs", lambda c, m, a: mk_int(z3.Int2BV(deref(a[0]).fields[0].z() / 1000000000, 64), "u64"))
 
     def dur_cmp(c, m, a):
         x, y = deref(a[0]).fields[0], deref(a[1]).fields[0]
-        lt = z3.ULT(x.z(), y.z())
-        eq = x.z() == y.z()
-        if c.decide(lt):
+        if c.decide(x.z() < y.z()):
             return Agg("Ordering", "Less", [])
-        if c.decide(eq):
+        if c.decide(x.z() == y.z()):
             return Agg("Ordering", "Equal", [])
         return Agg("Ordering", "Greater", [])
     M.add(r"<Duration as Ord>::cmp", dur_cmp)
